@@ -27,7 +27,16 @@ def mc(rep, tier, tag):
     rep.tlc('HatSystems ' + tier, r)
     if r.violated:
         raise tlc.TLCError('HatSystems.tla violates %s' % r.violated)
-    return [g.states[k] for k in sorted(g.states)]
+    out = [g.states[k] for k in sorted(g.states)]
+    # three dimensions: uniform grids only (the band structure of the matrix changes with the dimension)
+    cfg3 = ('SPECIFICATION Spec\nCONSTANTS LAT = %d\n GRIDS <- MCGrids3\n DATASETS <- MCData3\n MAXD = 3\n' % LAT
+            + ''.join('INVARIANT %s\n' % i for i in MC_INV) + 'CHECK_DEADLOCK FALSE\n')
+    r3, g3 = tlc.run('MC_HatSystems', cfg3, tag + 'd3', dump=True, timeout=3000)
+    rep.tlc('HatSystems three dimensions', r3)
+    if r3.violated:
+        raise tlc.TLCError('HatSystems.tla violates %s (D=3)' % r3.violated)
+    out += [g3.states[k] for k in sorted(g3.states) if g3.states[k]['dim'] == 3]
+    return out
 
 
 def fr(q):
@@ -306,7 +315,12 @@ def large_reuse(rep, tier, rng):
     base = [k / 16 for k in range(17)]
     seqs = [[(base, base), (sorted(set(base + [1 / 32, 3 / 32])), base), (sorted(set(base + [1 / 32, 3 / 32])), sorted(set(base + [31 / 32])))],
             [(base, base), (base, sorted(set(base + [17 / 32, 19 / 32]))), (sorted(set(base + [15 / 32])), sorted(set(base + [17 / 32, 19 / 32, 37 / 64])))]]
-    for si, seq in enumerate(seqs if tier == 'thorough' else seqs[:1]):
+    # grid points MOVED between two steps while their neighbours stay (what rebalancing does, or one operation object used for another grid):
+    # the new hat has the support of an old hat but another centre
+    moved_x = sorted(set(base) - {8 / 16} | {17 / 32})
+    moved_y = sorted(set(base) - {4 / 16} | {9 / 32})
+    seqs.append([(base, base), (moved_x, sorted(set(base + [1 / 32]))), (moved_x, sorted(set(moved_y + [1 / 32]))), (base, base)])
+    for si, seq in enumerate(seqs if tier == 'thorough' else [seqs[0], seqs[2]]):
         for lam, with_classes in ((0.0, False), (0.01, True)):
             r = np.random.RandomState(rng.randint(0, 10 ** 6))
             data = np.round(r.rand(40, 2) * 0.98 + 0.01, 6)
@@ -354,14 +368,14 @@ def run(tier, seed):
     rng = random.Random(seed)
     states = mc(rep, tier, 'c16')
     if tier == 'quick':
-        states = [s for s in states if s['dim'] == 1] + rng.sample([s for s in states if s['dim'] == 2], 90)
+        states = [s for s in states if s['dim'] == 1] + rng.sample([s for s in states if s['dim'] == 2], 90) + [s for s in states if s['dim'] == 3]
     for st in states:
         test_state(rep, st, tier, rng)
     reuse_history(rep, states, tier, rng)
     large_reuse(rep, tier, rng)
     rep.cov['spec_states_tested_on_impl'] = len(states)
     rep.cov['exhaustive'] = tier == 'thorough'
-    rep.cov['rule'] = ('states of HatSystems.tla: tensor products (D=1,2) of refinement-tree grids on an 8-lattice x 5 data sets (grid-line and boundary samples, class labels) '
+    rep.cov['rule'] = ('states of HatSystems.tla: tensor products (D=1,2) of refinement-tree grids on an 8-lattice x 5 data sets, uniform grids of levels 1-2 in three dimensions x 2 data sets, (grid-line and boundary samples, class labels) '
                        'x (lambda, lumping); quick: all 1-D states and a seeded sample of 90 2-D states; distinct by (grid, data, lambda, lumping)')
     rep.assumptions += ['TLC/SANY', 'float comparison 1e-12 with the spec rationals', 'unit cube, boundary points off (the default of DensityEstimation)']
     return rep.finish()
